@@ -143,6 +143,81 @@ func Run(cases []*Case, fast bool) ([]*Out, error) {
 			}
 		}
 	}
+	// Parses that hit the wall-clock guard: the first one of a package is run once more in a
+	// process of its own, and only if it is guarded out again does it keep its TIMEOUT (the other
+	// unevaluated inputs of that package are then marked Skipped). Inputs skipped for other
+	// reasons (too many spinning goroutines in the driver) are run now, package by package.
+	single := func(name string, w []int, lim int) (pgo.Result, error) {
+		stdin, _ := json.Marshal(map[string]job{name: {Inputs: [][]int{w}, Limits: []int{lim}}})
+		rr := forge.Run(bin, stdin, 3*time.Minute)
+		var r1 map[string][]pgo.Result
+		if rr.Err != nil || json.Unmarshal(rr.Stdout, &r1) != nil || len(r1[name]) != 1 {
+			return pgo.Result{}, fmt.Errorf("re-run of a guarded-out parse failed: %v", rr.Err)
+		}
+		return r1[name][0], nil
+	}
+	for i, p := range b.Pkgs {
+		rs := outs[i].Results
+		for pass := 0; pass < 3; pass++ {
+			first := -1
+			pending := false
+			for k, r := range rs {
+				if r.Panic == "TIMEOUT" && first < 0 {
+					first = k
+				}
+				if r.Panic == "SKIPPED" {
+					pending = true
+				}
+			}
+			if first < 0 && !pending {
+				break
+			}
+			j := jobs[p.Name]
+			if first >= 0 {
+				nr, err := single(p.Name, j.Inputs[first], j.Limits[first])
+				if err != nil {
+					return nil, &HarnessError{err.Error()}
+				}
+				if nr.Panic == "TIMEOUT" {
+					nr.Panic = "TIMEOUT (twice, in two processes)"
+					rs[first] = nr
+					for k := range rs {
+						if rs[k].Panic == "SKIPPED" || rs[k].Panic == "TIMEOUT" {
+							rs[k] = pgo.Result{Skipped: true}
+						}
+					}
+					break
+				}
+				rs[first] = nr // finished this time: a stall of the machine, not of the parser
+			}
+			// run what is still unevaluated for this package in one fresh process
+			var idx []int
+			var in [][]int
+			var lim []int
+			for k, r := range rs {
+				if r.Panic == "SKIPPED" || r.Panic == "TIMEOUT" {
+					idx, in, lim = append(idx, k), append(in, j.Inputs[k]), append(lim, j.Limits[k])
+				}
+			}
+			if len(idx) == 0 {
+				break
+			}
+			stdin, _ := json.Marshal(map[string]job{p.Name: {Inputs: in, Limits: lim}})
+			rr := forge.Run(bin, stdin, 10*time.Minute)
+			var r2 map[string][]pgo.Result
+			if rr.Err != nil || json.Unmarshal(rr.Stdout, &r2) != nil || len(r2[p.Name]) != len(idx) {
+				return nil, &HarnessError{fmt.Sprintf("re-run of skipped inputs failed: %v", rr.Err)}
+			}
+			for n, k := range idx {
+				rs[k] = r2[p.Name][n]
+			}
+		}
+		for k := range rs {
+			if rs[k].Panic == "SKIPPED" || rs[k].Panic == "TIMEOUT" {
+				rs[k] = pgo.Result{Skipped: true} // could not be settled within three passes
+			}
+		}
+	}
 	return outs, nil
 }
 
